@@ -141,6 +141,30 @@ impl SecondaryStorage {
             }
         }
 
+        if !options.disable_all_disk_operation {
+            // vacuum unused DVs (their ids are handed out again)
+            let mut dir = fs::read_dir(options.path.join("dv")).await?;
+            while let Some(entry) = dir.next_entry().await? {
+                if let Some(stem) = entry.file_name().to_str().unwrap().strip_suffix(".dv")
+                    && let [table_id, rowset_id, dv_id] = stem.split('_').collect::<Vec<_>>()[..]
+                    && let (Ok(table_id), Ok(rowset_id), Ok(dv_id)) = (
+                        table_id.parse::<u32>(),
+                        rowset_id.parse::<u32>(),
+                        dv_id.parse::<u64>(),
+                    )
+                    && !dvs_to_open.contains_key(&(table_id, rowset_id, dv_id))
+                {
+                    #[cfg(feature = "verif")]
+                    crate::verif::persist("boot.unlink.pre", entry.path());
+                    fs::remove_file(entry.path())
+                        .await
+                        .expect("failed to vacuum unused delete vectors");
+                    #[cfg(feature = "verif")]
+                    crate::verif::persist("boot.unlink.post", entry.path());
+                }
+            }
+        }
+
         // TODO: parallel open
 
         let tables = engine.tables.read().clone();
